@@ -1261,7 +1261,14 @@ impl World {
                     self.file_counter += 1;
                     format!("load{}.arxml", self.file_counter)
                 };
-                Some(Op::LoadBuffer { m, text, name, strict: self.rng.chance(1, 2) })
+                let strict = self.rng.chance(1, 2);
+                if self.masks.no_unsorted_merge && self.models[m].files().count() > 0 {
+                    // the merge pairs siblings of different kinds by their specification index and duplicates shared elements when the
+                    // model lists them in another order (known finding of C09, witnessed there): sort first, as a separate call
+                    self.pending.push_back(Op::LoadBuffer { m, text, name, strict });
+                    return Some(Op::SortModel { m });
+                }
+                Some(Op::LoadBuffer { m, text, name, strict })
             }
             Kind::EnsureChain => None,
             Kind::MergeConflict => {
@@ -1380,6 +1387,51 @@ impl World {
 // initial models
 
 /// a small hand-shaped model with packages, a system with references, BSW values and signals
+/// a multi-file model that comes into being by loading partial views (2-3 files): the same packages carry different kinds of
+/// children in different files (LONG-NAME / CATEGORY / ELEMENTS / AR-PACKAGES), shared and file-specific elements
+impl World {
+    /// queue a duplicate() of the model added last (it runs as the first operations of the history, after the growth steps)
+    pub fn pending_duplicate_of_last_model(&mut self) {
+        let m = self.models.len() - 1;
+        self.pending.push_back(Op::Duplicate { m });
+    }
+}
+
+pub fn seed_model_loaded(w: &mut World, version: AutosarVersion) -> Option<usize> {
+    let hdr = HDR.replace("AUTOSAR_00050.xsd", version.filename());
+    let parts: [[&str; 3]; 3] = [
+        // package p1: what each file knows about it
+        ["<LONG-NAME><L-4 L=\"EN\">first</L-4></LONG-NAME><ELEMENTS><SYSTEM><SHORT-NAME>s1</SHORT-NAME></SYSTEM></ELEMENTS>", "<AR-PACKAGES><AR-PACKAGE><SHORT-NAME>sub</SHORT-NAME></AR-PACKAGE></AR-PACKAGES>", "<CATEGORY>cat</CATEGORY>"],
+        // package shared
+        ["<ELEMENTS><ECU-INSTANCE><SHORT-NAME>e</SHORT-NAME></ECU-INSTANCE></ELEMENTS>", "<ELEMENTS><ECU-INSTANCE><SHORT-NAME>e</SHORT-NAME></ECU-INSTANCE><I-SIGNAL><SHORT-NAME>i</SHORT-NAME></I-SIGNAL></ELEMENTS>", ""],
+        // package only in some files
+        ["", "<ELEMENTS><I-SIGNAL><SHORT-NAME>only</SHORT-NAME></I-SIGNAL></ELEMENTS>", "<ELEMENTS><I-SIGNAL><SHORT-NAME>only</SHORT-NAME></I-SIGNAL><I-SIGNAL><SHORT-NAME>third</SHORT-NAME></I-SIGNAL></ELEMENTS>"],
+    ];
+    let model = AutosarModel::new();
+    let nfiles = w.rng.range(2, 3);
+    let mut order: Vec<usize> = (0..nfiles).collect();
+    w.rng.shuffle(&mut order);
+    for f in order {
+        let mut doc = format!("{hdr}<AR-PACKAGES>");
+        for (pi, pname) in ["p1", "shared", "some"].iter().enumerate() {
+            let body = parts[pi][f];
+            if pi == 2 && body.is_empty() {
+                continue;
+            }
+            doc.push_str(&format!("<AR-PACKAGE><SHORT-NAME>{pname}</SHORT-NAME>{body}</AR-PACKAGE>"));
+        }
+        doc.push_str("</AR-PACKAGES></AUTOSAR>");
+        w.file_counter += 1;
+        match model.load_buffer(doc.as_bytes(), format!("view{}.arxml", w.file_counter), true) {
+            Ok((file, _)) => {
+                w.intern_file(&file);
+            }
+            Err(_) => return None,
+        }
+    }
+    Some(w.add_model(model))
+}
+
 pub fn seed_model_small(w: &mut World, files: usize, versions: &[AutosarVersion]) -> usize {
     let model = AutosarModel::new();
     for i in 0..files.max(1) {
